@@ -170,7 +170,9 @@ impl OutputFormat for TundraDraw {
         result.ice_mode = IceMode::Ice;
 
         let mut pos = Position::default();
+        // a Tundra file starts black on black (palette entry 0), that is what the writer assumes
         let mut attr = TextAttribute::default();
+        attr.set_foreground(0);
 
         while o < data.len() {
             let mut cmd = data[o];
